@@ -16,22 +16,22 @@ import (
 )
 
 type Engine struct {
-	fset      *token.FileSet
-	prog      *ssa.Program
-	pkgs      []*packages.Package
-	spkgs     []*ssa.Package
-	sorts     *Sorts
-	contracts *ContractSet
-	prelude   *Prelude
-	fnByKey   map[string]*ssa.Function
-	pkgByName map[string]*types.Package
-	pureKeys  map[string]bool
-	purePfx   []string
-	modCache  map[string][]string
-	modBusy   map[string]bool
-	mutGlobal map[*ssa.Global]bool
+	fset       *token.FileSet
+	prog       *ssa.Program
+	pkgs       []*packages.Package
+	spkgs      []*ssa.Package
+	sorts      *Sorts
+	contracts  *ContractSet
+	prelude    *Prelude
+	fnByKey    map[string]*ssa.Function
+	pkgByName  map[string]*types.Package
+	pureKeys   map[string]bool
+	purePfx    []string
+	modCache   map[string][]string
+	modBusy    map[string]bool
+	mutGlobal  map[*ssa.Global]bool
 	globalInit map[*ssa.Global][]globalInitFact
-	repoDir   string
+	repoDir    string
 	ghostTypes []string
 	perReturn  bool // debug: one post obligation per return statement
 }
@@ -108,7 +108,7 @@ func LoadEngine(repoDir string, patterns []string, contractDirs []string, prelud
 	if err != nil {
 		return nil, err
 	}
-	e.contracts = &ContractSet{Fns: map[string]*FnContract{}, Imports: map[string]string{}, Macros: map[string]*Macro{}}
+	e.contracts = &ContractSet{Fns: map[string]*FnContract{}, Imports: map[string]string{}, Macros: map[string]*Macro{}, Implements: map[string]string{}}
 	for _, p := range spkgs {
 		if p != nil && isRepoPkg(p) {
 			e.contracts.Imports[p.Pkg.Name()] = p.Pkg.Path()
@@ -633,4 +633,21 @@ func goEnv() []string {
 		env = append(env, kv)
 	}
 	return append(env, "GOFLAGS=-mod=mod", "GOPROXY=off", "GOTOOLCHAIN=auto")
+}
+
+// durable reports whether a callee has a durable effect (modifies a ghost
+// variable of the stores or of the Lightning backend other than the fault
+// counters and the recorded answers).
+func (e *Engine) durable(key string, con *FnContract) bool {
+	for _, m := range e.modSet(key, con) {
+		if _, isGhost := e.prelude.Ghosts[m]; !isGhost {
+			continue
+		}
+		switch m {
+		case "db.faults", "ln.qfaults", "ln.st", "ln.sterr", "ln.nst", "clk.now", "hvs.last", "hvs.calls", "hvs.fails":
+			continue
+		}
+		return true
+	}
+	return false
 }
